@@ -1,38 +1,36 @@
 (* C48 wire functions.
-   input : [h bst [chain0] [chain2] [chain3] [chain4] [chain5] [chain6] [chain7] [chain8]]   (see harness/cmd/c48/main.go)
+   input : [h bst tls [chain0] [chain1] [chain2] [chain3] [chain4] [chain5] [chain6] [chain7] [chain8]]   (see harness/cmd/c48/main.go)
    output: [[calls] status body location xfake xmod contacted open] *)
 From Coq Require Import List ZArith Bool.
 From Bfe Require Import lib.Val model.Callbacks.
 Import ListNotations.
 Open Scope Z_scope.
 
-Record c48_input := mkIn { i_h : nat; i_bst : Z; i_chains : list (list Z) }.   (* 8 chains in point order 0,2,3,4,5,6,7,8 *)
+Record c48_input := mkIn { i_h : nat; i_bst : Z; i_tls : bool; i_chains : list (list Z) }.   (* 9 chains, points 0..8 *)
 
 Definition code_ok (c : Z) : bool := (0 <=? c) && (c <=? 29).
 
 Definition decode_C48 (v : val) : option c48_input :=
   match v with
-  | VL (VZ h :: VZ bst :: rest) =>
+  | VL (VZ h :: VZ bst :: VZ tls :: rest) =>
     match all_some (map as_LZ rest) with
     | Some chains =>
-      if (1 <=? h) && (h <=? 5) && (200 <=? bst) && (bst <=? 599) && (length chains =? 8)%nat
+      if (1 <=? h) && (h <=? 5) && (200 <=? bst) && (bst <=? 599) && (0 <=? tls) && (tls <=? 1) && (length chains =? 9)%nat
          && forallb (fun c => (Z.of_nat (length c) <=? h) && forallb code_ok c) chains
-      then Some (mkIn (Z.to_nat h) bst chains) else None
+      then Some (mkIn (Z.to_nat h) bst (tls =? 1) chains) else None
     | None => None
     end
   | _ => None
   end.
 
-Definition point_index (p : Z) : nat :=
-  if p =? 0 then 0%nat else Z.to_nat (p - 1).          (* 0->0, 2->1, 3->2, ... 8->7 *)
-Definition chain_at (i : c48_input) (p : Z) : list Z := pad (i_h i) (nth (point_index p) (i_chains i) []).
+Definition chain_at (i : c48_input) (p : Z) : list Z := pad (i_h i) (nth (Z.to_nat p) (i_chains i) []).
 
 Definition enc_reply (calls : list Z) (r : reply) (contacted open : Z) : val :=
   VL [vLZ calls; VZ (r_status r); VB (r_body r); VB (r_loc r); VZ (r_xfake r); VZ (r_xmod r); VZ contacted; VZ open].
 
 Definition run_C48 (v : val) : val :=
   match decode_C48 v with
-  | Some i => let k := serve_conn (i_h i) (i_bst i) (chain_at i) in
+  | Some i => let k := serve_conn (i_h i) (i_bst i) (i_tls i) (chain_at i) in
               enc_reply (k_calls k) (k_reply k) (k_contacted k) (k_open k)
   | None => VErr 0
   end.
@@ -67,11 +65,14 @@ Definition order_and_stop (i : c48_input) (calls : list Z) : bool :=
   let ok_pt (p tag : Z) (l : list Z) :=
       let got := idxs_of calls p tag in
       match got with [] => true | _ => list_Z_eqb got (expected_idxs l) end in
-  forallb (fun p => ok_pt p 0 (chain_at i p)) [0; 8]
+  forallb (fun p => ok_pt p 0 (chain_at i p)) [0; 1; 8]
+  && (i_tls i || match idxs_of calls 1 0 with [] => true | _ => false end)
+  && negb (match idxs_of calls 0 0 with [] => true | _ => false end)
+  && negb (match idxs_of calls 8 0 with [] => true | _ => false end)
   && forallb (fun p => ok_pt p 1 (chain_at i p) && ok_pt p 2 (repeat VGoOn h)) [2; 3; 4; 5; 6; 7]
   && forallb (fun c => let p := call_point c in let t := call_tag c in
                        (0 <=? c) && (call_idx c <? Z.of_nat h) &&
-                       (((t =? 0) && ((p =? 0) || (p =? 8))) || (((t =? 1) || (t =? 2)) && (2 <=? p) && (p <=? 7)))) calls
+                       (((t =? 0) && ((p =? 0) || (p =? 1) || (p =? 8))) || (((t =? 1) || (t =? 2)) && (2 <=? p) && (p <=? 7)))) calls
   && sorted_le (map call_point (filter (fun c => call_tag c =? 1) calls))
   && sorted_le (map call_point (filter (fun c => call_tag c =? 2) calls)).
 
@@ -103,7 +104,7 @@ Definition prop_C48 (iv o : val) : bool :=
           else if r 6 =? VRedirect then is_redirect (variant (v 6))
           else otherwise in
       order_and_stop i calls &&
-      (if r 0 =? VClose then sent_nothing && (contacted =? 0)
+      (if (r 0 =? VClose) || (i_tls i && (r 1 =? VClose)) then sent_nothing && (contacted =? 0)
        else match first_decisive i [2; 3; 4] with
             | Some c =>
               (contacted =? 0) &&
